@@ -224,6 +224,8 @@ def _splice(caller, by_id, B, i, call, g):
         return None
 
     g_exit = gcfg["exit"]
+    # where the call stood: spliced elements belong to that place of the caller (the step expression of a loop, say)
+    site = (B["elems"][i].get("at") or (B["elems"][i].get("line"), B["elems"][i].get("col")))
     new_blocks = []
     for gb in gcfg["blocks"]:
         nb = {"id": idmap[gb["id"]], "elems": [], "preds": [], "succs": [], "inlined_from": g["name"]}
@@ -237,13 +239,13 @@ def _splice(caller, by_id, B, i, call, g):
             if isinstance(gx, dict) and gx.get("k") == "ret":
                 returns = True
                 if gx.get("e") is not None and has_value:
-                    nb["elems"].append({"line": ge.get("line"), "x": {"k": "bin", "op": "=", "l": dict(ret_ref), "r": _map_tree(gx["e"], fix_callee),
+                    nb["elems"].append({"line": ge.get("line"), "at": site, "x": {"k": "bin", "op": "=", "l": dict(ret_ref), "r": _map_tree(gx["e"], fix_callee),
                                                                    "t": ret_t, "line": gx.get("line"), "w": (g.get("ret") or {}).get("w"),
                                                                    "s": (g.get("ret") or {}).get("s")}})
                 elif gx.get("e") is not None:
-                    nb["elems"].append({"line": ge.get("line"), "x": _map_tree(gx["e"], fix_callee)})
+                    nb["elems"].append({"line": ge.get("line"), "at": site, "x": _map_tree(gx["e"], fix_callee)})
                 continue
-            nb["elems"].append({"line": ge.get("line"), "x": _map_tree(gx, fix_callee)})
+            nb["elems"].append({"line": ge.get("line"), "at": site, "x": _map_tree(gx, fix_callee)})
         nb["succs"] = [(cont_id if s == g_exit else idmap[s]) if s is not None else None for s in gb["succs"]]
         if gb["id"] == g_exit:
             nb["succs"] = [cont_id]
@@ -260,7 +262,8 @@ def _splice(caller, by_id, B, i, call, g):
             if n["i"] > i:
                 return {"k": "elem", "b": cont_id, "i": n["i"] - shift}
         return None
-    cont = {"id": cont_id, "elems": [{"line": e.get("line"), "x": _map_tree(e["x"], fix_cont)} for e in B["elems"][i + 1:]],
+    cont = {"id": cont_id, "elems": [dict({k_: v_ for k_, v_ in e.items() if k_ in ("col", "at")}, line=e.get("line"), x=_map_tree(e["x"], fix_cont))
+                                     for e in B["elems"][i + 1:]],
             "succs": list(B["succs"]), "dead": list(B.get("dead", [])), "preds": []}
     for k in ("term", "looptarget", "noreturn"):
         if B.get(k) is not None:
